@@ -498,6 +498,25 @@ def g1_bare_vs_self(cx, mods):
                     cx.info(n, "G1: bare name '%s' resolves to a module-level binding while the method also uses self.%s" % (n.id, n.id), construct=short(stmt_of(n)))
 
 
+def r3b_registry_points_not_memoised_partially(cx):
+    """Failures are also recorded against the registry points get_registry_points(component) returns; its answer depends on BOTH parameters
+    (the walk direction flag flips between dependencies and dependents), so a memo keyed on the component alone hands one direction's answer to the other."""
+    cx.rule("C03.R3", "exceptions are recorded against the failing component (or a registry point of it)", floor=5)
+    m = cx.repo.module(DR)
+    fn = m.func("get_registry_points", "C03.R3")
+    ps = params(fn)
+    stores = [a for a in walk_body(fn.body) if isinstance(a, ast.Assign) and isinstance(a.targets[0], ast.Subscript) and isinstance(a.targets[0].value, ast.Name)
+              and m.top.get(a.targets[0].value.id) is not None]
+    bad = []
+    for a in stores:
+        key = a.targets[0].slice
+        names = set(x.id for x in ast.walk(trace(key, fn) if isinstance(key, ast.Name) else key) if isinstance(x, ast.Name))
+        if not set(ps) <= names:
+            bad.append(a)
+    cx.require(not bad, bad[0] if bad else fn, "get_registry_points is not memoised under a key that leaves out one of its parameters",
+               construct=short(bad[0]) if bad else "no partial memo in get_registry_points")
+
+
 def run(cx):
     repo = cx.repo
     cx.extra["explanation"] = ("C03: exception-escape discipline of the execution loop and the observer loop, shadowing of except arms, attribution / traceback / gating of "
@@ -510,6 +529,7 @@ def run(cx):
     cx.guard(r1_no_escape)
     cx.guard(r2_ladder, mods, anchor_names)
     cx.guard(r3_attribution, sites)
+    cx.guard(r3b_registry_points_not_memoised_partially)
     cx.guard(r4_record_before_skip, mods)
     cx.guard(r5_traceback, sites)
     cx.guard(r6_skip_gating, sites)
